@@ -22,12 +22,14 @@ CFG = ('[bumpver]\ncurrent_version = "1.2.3"\nversion_pattern = "MAJOR.MINOR.PAT
 LATIN1 = "data/caf\udce9.dat"
 FILES = {"bumpver.toml": CFG.encode(), "a.txt": b"head\nver 1.2.3\ntail\n", "sub/b.txt": b"pep 1.2.3\nmore\n",
          "other.txt": b"unrelated\nline\n", "docs/x.txt": b"docs\n", "docs/series.txt": b"intro\nseries 1.2 docs\nend\n", "rel notes/what is new.txt": b"now 1.2.3\n",
-         "pkg/deep/inner/c.txt": b"deep 1.2.3\n", LATIN1: b"dat 1.2.3\n"}
+         "pkg/deep/inner/c.txt": b"deep 1.2.3\n", LATIN1: b"dat 1.2.3\n", "NOTES": b"unrelated notes\nmore\n"}
 # docs/series.txt carries a pattern whose rendering does not change with a --patch bump: still a pattern file
 # "rel notes/what is new.txt" is printed C-quoted by `git status --porcelain`
 # "pkg/deep/inner/c.txt" is the only file below pkg/: untracked, git reports just `?? pkg/` (three levels above the file)
 PATTERN_FILES = ["a.txt", "sub/b.txt", "bumpver.toml", "docs/series.txt", "rel notes/what is new.txt", "pkg/deep/inner/c.txt", LATIN1]
-UNRELATED = ["other.txt", "docs/x.txt"]
+UNRELATED = ["other.txt", "docs/x.txt", "NOTES"]
+# "NOTES" stands for a file that was called "doc" in the last commit (`git mv doc NOTES`): in `git status -z` the rename's old
+# path is an entry of three characters, and the next entry in path order is that of a.txt
 
 
 # settings people keep in ~/.gitconfig that change what `git status` / `git branch` print
@@ -75,7 +77,7 @@ def apply_status(rg, d, path, status, is_pattern):
     elif status == "deleted_staged":
         rg.git("rm", "-q", "--", path)
     elif status == "renamed":
-        rg.git("mv", "--", path + ".old", path)
+        rg.git("mv", "--", ("doc" if path == "NOTES" else path + ".old"), path)
     elif status == "untracked":
         pass
     elif status == "removed_from_index":
@@ -121,6 +123,9 @@ class Dirty:
                                                      "removed_from_index"):
                     st = rng.choice(["modified_unstaged", "modified_staged", "modified_both"])
                 dirt.append({"status": st, "target": target, "path": path})
+            if rng.random() < 0.15:
+                dirt = [{"status": "renamed", "target": "unrelated", "path": "NOTES"},
+                        {"status": rng.choice(["modified_unstaged", "modified_staged", "modified_both"]), "target": "pattern", "path": "a.txt"}]
             case = {"dirt": dirt, "allow": rng.random() < 0.6, "many": rng.choice([0, 0, 0, 9, 11, 12, 30]),
                     "user_config": rng.choice(USER_CONFIGS),
                     "extra": rng.choice([[], [], ["--ignore-vcs-tag"], ["--tag-scope", "global"], ["--tag-scope", "branch"],
@@ -136,7 +141,7 @@ class Dirty:
             if x["status"] in ("added", "added_modified", "untracked"):
                 late[x["path"]] = files.pop(x["path"])
             elif x["status"] == "renamed":
-                files[x["path"] + ".old"] = files.pop(x["path"])
+                files[("doc" if x["path"] == "NOTES" else x["path"] + ".old")] = files.pop(x["path"])
         many = ["0many/f%02d.txt" % i for i in range(case.get("many", 0))]
         for m in many:
             files[m] = b"unrelated work\n"
